@@ -87,6 +87,41 @@ func ctors() []ctor {
 			}
 			return p
 		}},
+		{Name: "Pool{OrderingFIFO,maxBacklog=0}", Order: "fifo", Timeout: h, build: func(in core.Limiter) core.Limiter {
+			p, err := pool.NewPool(in, pool.OrderingFIFO, 0, h, nil, nil) // <= 0: default backlog size
+			if err != nil {
+				panic(err)
+			}
+			return p
+		}},
+		{Name: "Pool{OrderingLIFO,maxBacklog=0}", Order: "lifo", Timeout: h, build: func(in core.Limiter) core.Limiter {
+			p, err := pool.NewPool(in, pool.OrderingLIFO, 0, h, nil, nil)
+			if err != nil {
+				panic(err)
+			}
+			return p
+		}},
+		{Name: "Pool{OrderingFIFO,maxBacklog=-1}", Order: "fifo", Timeout: h, build: func(in core.Limiter) core.Limiter {
+			p, err := pool.NewPool(in, pool.OrderingFIFO, -1, h, nil, nil)
+			if err != nil {
+				panic(err)
+			}
+			return p
+		}},
+		{Name: "FixedPool{OrderingLIFO,maxBacklog=0}", Order: "lifo", Timeout: h, pool: func() core.Limiter {
+			p, err := pool.NewFixedPool("p", pool.OrderingLIFO, 1, -1, -1, -1, -1, 0, h, nil, nil)
+			if err != nil {
+				panic(err)
+			}
+			return p
+		}},
+		{Name: "FixedPool{OrderingFIFO,maxBacklog=-1}", Order: "fifo", Timeout: h, pool: func() core.Limiter {
+			p, err := pool.NewFixedPool("p", pool.OrderingFIFO, 1, -1, -1, -1, -1, -1, h, nil, nil)
+			if err != nil {
+				panic(err)
+			}
+			return p
+		}},
 		{Name: "Pool{OrderingFIFO}", Order: "fifo", Timeout: h, build: func(in core.Limiter) core.Limiter {
 			p, err := pool.NewPool(in, pool.OrderingFIFO, 50, h, nil, nil)
 			if err != nil {
